@@ -7,13 +7,19 @@
    - FLAT blocks whose action lists may end with pass or break, any conditions: the actions other than
      move / flag performed are exactly those the documented semantics selects - first match wins, pass keeps the
      actions and continues, break abandons the block (C03_flat_pass_break).
-   NOT proved: pass / break inside nested blocks (the statement [C03_first_match_statement] below; it needs the
-   exclusions recorded as refuted lemmas: a pass or action pending from another block decides a block, location
-   entries merge with the first pending one) - checked by the bounded-exhaustive
+   - ANY nesting of blocks, any conditions, action lists that may end with pass or break (C03_general): whenever
+     neither of the two pass events occurred during the evaluation (T1: a pass of another block is pending when a
+     nested block ends; T2: the count of pending actions used there differs from the count of the block's own
+     actions - the situations of the known findings F-03-T1 / F-03-T2), the actions other than move / flag
+     performed are exactly those of the documented semantics [spec_run]: rules tried in order, first match wins,
+     pass keeps the actions and continues, break abandons the block, a nested block is entered only if its
+     condition holds.
+   NOT proved: action lists with pass / break BEFORE their last action (the parser accepts them) and the final
+   location when several move / flag actions are pending (refuted: F-21) - checked by the bounded-exhaustive
    and random correspondence of harness/c03.py against [spec_run]. *)
 From Coq Require Import List Bool Arith.
 Import ListNotations.
-From MD Require Import EvalDefs EvalProofs EvalProofs2 EvalProofs3.
+From MD Require Import EvalDefs EvalProofs EvalProofs2 EvalProofs3 EvalProofs4.
 
 (* a condition built from and / or / ! / parentheses over matchers evaluates to its boolean meaning,
    whatever the match list holds and whichever sub-conditions are short-circuited *)
@@ -63,7 +69,36 @@ Example C03_ex_nested_pass :
   run_rules rules (fun _ => true) = None.
 Proof. vm_compute. repeat split; reflexivity. Qed.
 
-(* the general statement (pass, break, nested blocks), on clean evaluations: NOT PROVED *)
+(* pass and break in arbitrarily nested blocks, any conditions: on every evaluation without the pass events T1 / T2
+   the non-location actions are those of the documented semantics *)
+Theorem C03_general : forall rs env, ok_rules rs = true -> no_pass_events rs env = true ->
+  option_map others_e (run_rules rs env) = option_map (filter other_act) (spec_run rs env).
+Proof. exact general_rules. Qed.
+Print Assumptions C03_general.
+
+Theorem C03_general_clean : forall rs env, ok_rules rs = true -> clean rs env = true ->
+  option_map others_e (run_rules rs env) = option_map (filter other_act) (spec_run rs env).
+Proof. exact general_rules_clean. Qed.
+Print Assumptions C03_general_clean.
+
+(* non-vacuity: a block nested two deep with a pass in the inner block, a pass and a break in the outer one *)
+Example C03_ex_general :
+  let rules := [RBlock (CAtom 0) [RActs (CAtom 1) [XLabel 0; XPass];
+                                  RBlock (CAtom 3) [RActs (CAtom 4) [XLabel 3; XPass]; RActs (CAtom 5) [XLabel 4]];
+                                  RActs (CAtom 2) [XLabel 1; XBreak];
+                                  RActs CAll [XLabel 2]];
+                RActs CAll [XDiscard]] in
+  let e1 := fun a => negb (Nat.eqb a 1) in                                   (* inner pass, then the next inner rule *)
+  let e2 := fun a => negb (Nat.eqb a 1) && negb (Nat.eqb a 5) in             (* inner pass, nothing else in the inner block *)
+  let e3 := fun a => negb (Nat.eqb a 1) && negb (Nat.eqb a 3) in             (* break abandons the outer block *)
+  ok_rules rules = true /\
+  no_pass_events rules e1 = true /\ option_map others_e (run_rules rules e1) = Some [XLabel 3; XLabel 4] /\
+  no_pass_events rules e2 = true /\ option_map others_e (run_rules rules e2) = Some [XLabel 3] /\
+  no_pass_events rules e3 = true /\ option_map others_e (run_rules rules e3) = Some [XLabel 1; XDiscard] /\
+  no_pass_events rules (fun _ => true) = false.                              (* the outer pass is pending at the inner end: T1 *)
+Proof. vm_compute. repeat split; reflexivity. Qed.
+
+(* the statement without the restriction on action lists (pass / break anywhere in them): NOT PROVED *)
 Definition C03_first_match_statement : Prop :=
   forall rules env, clean rules env = true ->
     match run_rules rules env, spec_run rules env with
